@@ -23,7 +23,7 @@ theorem updateStamp_ovr (w : World) (t : Nat) (r : Rec) (R : Nat) (h : r.isOverr
 @[simp] theorem setStatic_genT (w t r R) : genT (setStatic w t r R) = false := rfl
 @[simp] theorem setStatic_stamp (w t r R) : (setStatic w t r R).stamp = some (readStamp w t) := updateStamp_stamp w t r R
 @[simp] theorem setStatic_checked (w t r R) : (setStatic w t r R).checked = r.checked := updateStamp_checked w t r R
-@[simp] theorem setStatic_csum (w t r R) : (setStatic w t r R).csum = r.csum := updateStamp_csum w t r R
+@[simp] theorem setStatic_csum (w t r R) : (setStatic w t r R).csum = none := rfl
 theorem setStatic_changed (w t r R) :
     (setStatic w t r R).changed = if r.stamp = some (readStamp w t) then r.changed else some R :=
   updateStamp_changed w t r R
@@ -107,7 +107,8 @@ theorem WEqv.setRec_self (w : World) (t : Nat) : WEqv w (setRec w t (w.recs t)) 
   refine ⟨rfl, rfl, rfl, rfl, rfl, rfl, ?_, ?_, ?_, ?_, ?_, ?_, ?_⟩ <;> intro x <;> by_cases e : x = t <;> simp [setRec, e]
 
 theorem setStatic_cur {w : World} {t R : Nat} (hc : RecCur w t) (hg : (w.recs t).isGenerated = false)
-    (ho : (w.recs t).isOverride = false) : setStatic w t (w.recs t) R = w.recs t := by
+    (ho : (w.recs t).isOverride = false) (hcs : (w.recs t).csum = none) :
+    setStatic w t (w.recs t) R = w.recs t := by
   obtain ⟨h1, _, h3⟩ := hc
   unfold setStatic updateStamp
   simp only [h3, if_true]
